@@ -1029,6 +1029,25 @@ func genC15(c *ctx) {
 			}
 		}
 	}
+	// 2b. deep nesting (far beyond what the random trees reach): N levels of one constructor, or of all four in rotation
+	strOf := func(t reflect.Type) reflect.Type { return wrap(reflect.StructField{Name: "V", Type: t, Tag: `json:"v"`}) }
+	mapOf := func(t reflect.Type) reflect.Type { return reflect.MapOf(reflect.TypeOf(""), t) }
+	for _, depth := range []int{31, 32, 33, 34, 48, 70} {
+		for ci, cons := range []func(reflect.Type) reflect.Type{reflect.SliceOf, mapOf, reflect.PointerTo, strOf, nil} {
+			t := reflect.TypeOf(int64(0))
+			for d := 0; d < depth; d++ {
+				f := cons
+				if f == nil {
+					f = []func(reflect.Type) reflect.Type{reflect.SliceOf, strOf, mapOf, reflect.PointerTo}[d%4]
+				}
+				t = f(t)
+			}
+			if ci != 3 {
+				t = strOf(t)
+			}
+			c.emitSgen(T("anon"), t)
+		}
+	}
 	// 3. random type trees
 	n := c.scale(1500, 20000)
 	for i := 0; i < n; i++ {
